@@ -456,24 +456,49 @@ func ruleOrders(rule string) RuleFn {
 					okStore = true
 				}
 			})
-			c.Check(okStore, rule, "(a) newGraphNode records the node's index for the scope", "orders[s] = s.gh.NewNode(wrapped)", "newGraphNode does not store orders[s] = s.gh.NewNode(wrapped)", nil, nil)
-			okRec := false
+			// alternative shape: one loop over the whole subtree, appendSubscopes(nil), registering in every element
+			iter := false
 			for _, l := range rangeLoops(ng) {
-				if l.over != "p:s.childScopes" {
+				if l.over != "p:s.appendSubscopes(nil)" || len(l.earlyExits()) > 0 {
 					continue
 				}
 				for b := range l.body {
 					for _, in := range b.Instrs {
-						if k, ok := in.(*ssa.Call); ok && an.StaticCallee(k) == ng && an.Norm(k.Common().Args[1]) == "p:wrapped" && an.Norm(k.Common().Args[2]) == "p:orders" && strings.HasPrefix(an.Norm(k.Common().Args[0]), "p:s.childScopes[") {
-							okRec = true
+						if mu, ok := in.(*ssa.MapUpdate); ok && an.Norm(mu.Map) == "p:orders" {
+							k, v := an.Norm(mu.Key), an.Norm(mu.Value)
+							if strings.HasPrefix(k, "p:s.appendSubscopes(nil)[") && v == k+".gh.NewNode(p:wrapped)" {
+								iter = true
+							}
+						}
+						if _, isIf := in.(*ssa.If); isIf && b != l.header {
+							iter = false
 						}
 					}
 				}
-				if len(l.earlyExits()) > 0 {
-					okRec = false
-				}
 			}
-			c.Check(okRec, rule, "(a) newGraphNode reaches the whole subtree", "recursion over childScopes", "newGraphNode does not recurse over all childScopes with the same node and orders map: descendants miss the node", nil, nil)
+			if iter && countIfs(ng) == 1 {
+				c.OKAt(rule, "(a) newGraphNode records the node's index for the scope", "for each scope of appendSubscopes(nil): orders[scope] = scope.gh.NewNode(wrapped)", "-")
+				c.OKAt(rule, "(a) newGraphNode reaches the whole subtree", "one loop over appendSubscopes(nil) (checked by W-scopes to enumerate the whole subtree)", "-")
+			} else {
+				c.Check(okStore, rule, "(a) newGraphNode records the node's index for the scope", "orders[s] = s.gh.NewNode(wrapped)", "newGraphNode does not store orders[s] = s.gh.NewNode(wrapped)", nil, nil)
+				okRec := false
+				for _, l := range rangeLoops(ng) {
+					if l.over != "p:s.childScopes" {
+						continue
+					}
+					for b := range l.body {
+						for _, in := range b.Instrs {
+							if k, ok := in.(*ssa.Call); ok && an.StaticCallee(k) == ng && an.Norm(k.Common().Args[1]) == "p:wrapped" && an.Norm(k.Common().Args[2]) == "p:orders" && strings.HasPrefix(an.Norm(k.Common().Args[0]), "p:s.childScopes[") {
+								okRec = true
+							}
+						}
+					}
+					if len(l.earlyExits()) > 0 {
+						okRec = false
+					}
+				}
+				c.Check(okRec, rule, "(a) newGraphNode reaches the whole subtree", "recursion over childScopes", "newGraphNode does not recurse over all childScopes with the same node and orders map: descendants miss the node", nil, nil)
+			}
 		}
 		// (b)
 		for _, nm := range []string{"dig.newConstructorNode", "dig.newParamGroupedSlice"} {
@@ -699,7 +724,9 @@ func ruleDFS(rule string) RuleFn {
 		}
 		c.Floor(rule, "recursive calls in isAcyclic", len(rec), 1)
 		// entry guard
-		eg := an.EdgesWhere(fn, func(f an.Fact) bool { return !strings.HasPrefix(f.S, "!") && strings.HasSuffix(f.S, "p:info[p:u].Visited") })
+		eg := an.EdgesWhere(fn, func(f an.Fact) bool {
+			return !strings.HasPrefix(f.S, "!") && strings.HasSuffix(f.S, "p:info[p:u].Visited")
+		})
 		okEntry := false
 		for _, e := range eg {
 			tgt := e.From.Succs[e.Succ]
